@@ -33,7 +33,7 @@ Coords7  == <<-4, -2, -1, 0, 1, 2, 4>>
 (* rewrites *)
 QMults == {R(-1,1), R(2,1), R(-1,2)}
 QAdds  == {R(1,1), R(-2,1)}
-QExps  == {8, -8}
+QExps  == {8, -8, -3}
 
 (* ---- program classes ---- *)
 (* TLC evaluates every constant definition without parameters when it starts, *)
